@@ -305,6 +305,10 @@ func (c *Ctx) ruleContainersEmptyFalse() {
 					if lookupOK(l) != nil && l.Pos {
 						found = true
 					}
+					// 0 < len(m[k]) and the like: a comparison on what a lookup in the container returned
+					if l.Kind == "lt" && l.Pos && strings.Contains(l.Key, "lookup(") && lenOf(l.Y) != nil {
+						found = true
+					}
 					if nv := nilCheckedValue(l); nv != nil && !l.Pos {
 						found = found || strings.Contains(P.Desc(nv), "lookup") || strings.Contains(P.Desc(nv), "Get")
 					}
